@@ -198,7 +198,9 @@ var c04TypeBits = map[string]rules.RequestType{"script": rules.TypeScript, "imag
 // c04TypeNames: the content-type modifiers in the order of their bits.
 var c04TypeNames = []string{"script", "stylesheet", "subdocument", "object", "image", "xmlhttprequest", "media", "font", "websocket", "ping", "other"}
 
-var c04DNSTypes = map[string]uint16{"A": 1, "AAAA": 28, "CNAME": 5, "TXT": 16, "HTTPS": 65, "CAA": 257, "ANY": 255}
+var c04DNSTypes = map[string]uint16{"A": 1, "AAAA": 28, "CNAME": 5, "TXT": 16, "HTTPS": 65, "CAA": 257, "ANY": 255,
+	"MX": 15, "NS": 2, "SOA": 6, "SRV": 33, "PTR": 12, "DS": 43, "NAPTR": 35, "LOC": 29, "SPF": 99,
+	"DNSKEY": 48, "TLSA": 52, "SSHFP": 44, "RRSIG": 46, "NSEC": 47, "CERT": 37, "DNAME": 39, "URI": 256, "SVCB": 64}
 
 // refDomainOrSub is "host is name or a sub-domain of name"; "name.*" stands
 // for name + the ICANN public suffix of host, on a label boundary.
@@ -637,6 +639,62 @@ func c04Run(c *Ctx, qs []c04Req, only string) {
 		}
 		return true
 	})
+	// size layer: value lists of 9, 17 and 33 entries (fillers that match no request
+	// of the alphabet, with one or two entries that do at the first, a middle and
+	// the last position, in both polarities): a matcher that changes its algorithm
+	// above some length is still asked about every position
+	fillers := map[string]func(i int) nv{
+		"domain": func(i int) nv { return nv{fmt.Sprintf("f%02d.filler.test", i), false} },
+		"client": func(i int) nv { return nv{fmt.Sprintf("10.9.%d.0/24", i), false} },
+		"ctag":   func(i int) nv { return nv{fmt.Sprintf("tag%02d", i), false} },
+		"dnstype": func(i int) nv {
+			return nv{[]string{"MX", "NS", "SOA", "SRV", "PTR", "DS", "NAPTR", "LOC", "SPF", "DNSKEY", "TLSA", "SSHFP", "RRSIG", "NSEC", "CERT", "DNAME", "URI", "SVCB"}[i%18], false}
+		},
+		"denyallow": func(i int) nv { return nv{fmt.Sprintf("f%02d.filler.test", i), false} },
+	}
+	for _, slot := range c04Slots() {
+		fill, ok := fillers[slot.name]
+		if !ok {
+			continue
+		}
+		for _, n := range []int{9, 17, 33} {
+			for _, pos := range []int{0, n / 2, n - 1} {
+				for vi, v := range slot.alpha[:4] {
+					for _, neg := range []bool{false, true} {
+						vs := make([]nv, n)
+						for i := range vs {
+							vs[i] = fill(i)
+							vs[i].neg = neg
+						}
+						if slot.name == "dnstype" && len(vs) > 18 {
+							vs = vs[:18] // only so many record types
+							if pos >= len(vs)-1 {
+								pos = len(vs) - 2
+							}
+						}
+						vs[pos] = v
+						// a second real value of the other polarity right next to it
+						if other := slot.alpha[(vi+1)%4]; pos+1 < len(vs) {
+							vs[pos+1] = other
+						}
+						r := c04Rule{pattern: "ads"}
+						slot.apply(&r, vs)
+						jobs = append(jobs, job{r, "size"})
+						if slot.name == "domain" && vi == 0 {
+							// a wildcard-TLD value and the same name under a suffix that is not a public one
+							vs2 := append([]nv{}, vs...)
+							vs2[pos] = nv{"example.*", neg}
+							if pos+1 < len(vs2) {
+								vs2[pos+1] = nv{"example.local", neg}
+							}
+							r2 := c04Rule{pattern: "ads", domains: vs2}
+							jobs = append(jobs, job{r2, "size"})
+						}
+					}
+				}
+			}
+		}
+	}
 	// pattern-target layer: which string the pattern is applied to (URL or bare
 	// hostname) for patterns that spell out, embed or omit the scheme
 	for _, pat := range []string{"|http://example.org^", "*://example.org^", "p://example.org", "http://example.org^", "https://example.org^", "://example.org^", "example.org^",
@@ -709,6 +767,43 @@ func c04Run(c *Ctx, qs []c04Req, only string) {
 			c.Run.Sample(map[string]any{"rule": jobs[i].r.text(), "layer": jobs[i].key})
 		}
 	})
+	// long URLs in which the rule's shortcut occurs more than once and only a later
+	// occurrence is where the pattern matches (and URLs around the 4 KiB cap)
+	type longCase struct {
+		pattern   string
+		matchCase bool
+		decoy     string // contains the shortcut, does not match
+		hit       string // matches
+	}
+	for _, lc := range []longCase{
+		{"^banner.gif", false, "/topbanner.gif?", "&f=/banner.gif"},
+		{"/ad^unit", false, "/adxunit/", "/ad/unit"},
+		{"/Ads/show", true, "/ads/show?", "/Ads/show"},
+		{"/ads/show", false, "/ads/sho?", "/ADS/SHOW"},
+		{"banner*.js|", false, "/banner.jsx?", "/banner-1.js"},
+	} {
+		for _, fill := range []int{0, 100, 240, 300, 1000, 3990, 4200} {
+			for _, withHit := range []bool{true, false} {
+				u := "http://h.test" + lc.decoy + strings.Repeat("x", fill)
+				if withHit {
+					u += lc.hit
+				}
+				r := c04Rule{pattern: lc.pattern, matchCase: lc.matchCase}
+				nr, err := rules.NewNetworkRule(r.text(), 1)
+				if err != nil {
+					panic(AlphabetRejected{Text: r.text(), Err: err})
+				}
+				q := rules.NewRequest(u, "", rules.TypeScript)
+				evals++
+				// the pattern is applied to the URL as the request keeps it (capped at 4 KiB)
+				if got, want := nr.Match(q), c04Reference(r, q); got != want {
+					c.Run.Violate(ev.Violation{Pred: "match-equals-reference", Sig: map[string]any{"rule": r.text(), "url_length": len(u), "with_hit": withHit},
+						What:   fmt.Sprintf("rule %q on a URL of %d bytes (%q ... %q): Match = %v, reference = %v", r.text(), len(u), clip(u), u[len(u)-20:], got, want),
+						Replay: map[string]any{"rule": r.text()}})
+				}
+			}
+		}
+	}
 	keys := make([]string, 0, len(perSlot))
 	for k := range perSlot {
 		keys = append(keys, k)
